@@ -10,4 +10,4 @@ EXPLANATION = (
 UNDECIDED = "`never panics / always returns` in general (internal-invariant panics such as channel `expect`s are not classified); progress of the tiling loops is argued, not proven."
 ASSUMPTIONS = [K.A_PRED, "iterators over files, vectors and closed channels are finite", "zoom resolutions are positive (successors of 10 x4 / non-zero manual sizes)"]
 OBLIGATIONS = [K.WIG_GUARDS, K.BED_GUARDS, K.IDMAP, K.CHROM_ORDER, K.PARSE_ERRORS, K.INPUT_PANICS, K.RTREE_LOOP, K.WRITE_LOOPS, K.HANDOVER, K.ERR_DISC,
-               K.SOURCE_SIBS, K.JOIN_RESULTS]
+               K.SOURCE_SIBS, K.JOIN_RESULTS, K.ZOOM_LIST]
